@@ -1,4 +1,5 @@
 CONSTANTS
+  MinItems = 0
   NC = 3
   L = 2
   MaxItems = 3
